@@ -4,6 +4,8 @@ VARIANTS = {
     "plain": {},
     # queue code with sync/channel operations routed through the controlled scheduler
     "sched-queue": {"rewrite": ["internal/queue/*.go"]},
+    # rendezvous rotation on the virtual clock
+    "vtime": {"rewrite": [["pkg/rendezvous/rotation.go", "time"], ["pkg/rendezvous/rendezvous.go", "time"]]},
     # secret store with its mutexes visible to the scheduler (datastore operations are points via the harness datastore)
     "sched-secret": {"rewrite": ["pkg/secretstore/*.go"]},
     # notify primitive and its three clients; the connectedness manager and the peer cache are compiled on their
@@ -65,7 +67,7 @@ CHECKS = {
                      "keys outside the deterministic alphabet are not covered"],
     ),
     "C15": dict(
-        harness="internal__queue", run="TestVerifC15", variant="sched-queue", level="model_checking", gomaxprocs=2,
+        harness="internal__queue", run="TestVerifC15", variant="sched-queue", level="model_checking", gomaxprocs=2, race_pass=True,
         technique="stateless model checking of the real queue code under a controlled scheduler (all interleavings at lock/channel operations, iterative preemption bounding) + exhaustive operation sequences of the priority queue against a reference multiset",
         rule="states = distinct schedule prefixes (decision nodes of the DFS tree), transitions = scheduling steps executed, traces = complete executions of the real code; classes = distinct (scenario, terminal observation) pairs",
         assumptions=["sequentially consistent interleavings at synchronisation operations only (mutex lock, channel send/receive/select/close, goroutine start); unlock is not a preemption point",
@@ -77,7 +79,7 @@ CHECKS = {
         technique="engine self-test", rule="engine self-test", assumptions=[],
     ),
     "C16": dict(
-        variant="sched-conn", level="model_checking", gomaxprocs=2,
+        variant="sched-conn", level="model_checking", gomaxprocs=2, race_pass=True,
         parts=[
             dict(name="N", harness="internal__notify", run="TestVerifC16N"),
             dict(name="CM", harness="internal__zzverif__cm", run="TestVerifC16CM"),
@@ -105,5 +107,22 @@ CHECKS = {
         rule="frame sizes {0,2,3,limit-1,limit,limit+1,127,128} with limits {8,130}, sequences of 1-3 frames, varint / uint32 big- and little-endian variants; distinct = (variant, limit, kind of case, frames read, error) classes",
         assumptions=["message bodies are wrapperspb values of the exact encoded size (a 1-byte body is not a valid protobuf message and is not covered)",
                      "the un-delimited 'full' reader/writer pair is not chunk tolerant by construction and is not part of the property's round-trip claim"],
+    ),
+    "C17": dict(
+        harness="pkg__rendezvous", run="TestVerifC17", variant="vtime", level="model_checking",
+        technique="explicit-state BFS over operation histories of two real RotationInterval instances on a virtual clock (register / resolve / exchange rotation values / advance time across period and grace boundaries), against an independent HMAC reference; plus an exhaustive grid for the pure functions",
+        rule="states = distinct canonical (virtual time, both caches, pending timers, reference bookkeeping); successors by replaying the history on fresh objects + one real call; intervals 1 s, 2 s, 1 h; classes = (operation, expectation, outcome)",
+        assumptions=["the clock is read through a virtual clock substituted for package time in pkg/rendezvous (rotation.go, rendezvous.go) by source rewriting at check time",
+                     "the swiper's real-time goroutines and the head-exchange marshaler (root package) are outside this harness",
+                     "grace period required by the oracle: RotationGracePeriod after the previous value's deadline"],
+    ),
+    "C06": dict(
+        harness="internal__handshake", run="TestVerifC06", level="model_checking",
+        technique="exhaustive enumeration of a bounded Dolev-Yao attacker against the real requester/responder code: every combination of harvest sessions x every ephemeral choice x every constructible/replayable frame in every attacker-controlled slot; plus every single-bit flip and truncation of each frame of an honest run",
+        rule="attacker M (a legitimate account) first runs 0..2 harvest sessions with honest parties (passive recording; A or B requests M; M requests A or B; M's ephemeral fresh or low-order), then attacks responder B claiming another account (T1) and requester A who targets B (T2); in each attacker-controlled slot every element of its knowledge closure is tried (fresh / 12 low-order / recorded / reflected ephemerals; every recorded frame; every known plaintext sealed under every computable key; empty, 1-byte, oversize; ack true/false/missing); classes = (target, ephemeral kind, frame kind, outcome)",
+        assumptions=["the attacker cannot break X25519, Ed25519 or the box; it combines what it has seen or can compute",
+                     "at most two harvest sessions before the targets (quick: pairs restricted to equal ephemeral kinds); frames B emits while being attacked (T1) are available for the attack on A (T2)",
+                     "handleIncomingRequest's check that the contact announced after the handshake equals the authenticated key is not part of this harness",
+                     "counted as model_checking: states = attacker knowledge states (harvest combinations), transitions = partial handshakes executed against the real code"],
     ),
 }
